@@ -323,6 +323,11 @@ def rule_md4(model, rep):
     t = qtext(up)
     rep.check("next = idx + 64" in t and "if next <= end:" in t and "self._count += 1" in t and "self._buf = content[idx:]" in t and "content = buf + content" in t, R, site(MD4, "md4.update"),
               "64-byte blocks; count += 1; remainder buffered", "incremental update processes whole blocks and buffers the rest")
+    from pv.q import must_assign
+    ok, bad = must_assign(up, "self._buf")
+    rep.check(ok, R, site(MD4, "md4.update") + " buffer", f"returns reached without storing the remainder: lines {bad}" if bad else "self._buf stored before every return",
+              "every completed update() replaces the buffer with the (possibly empty) remainder: a remainder left from the previous call would be hashed twice",
+              witness="md4(): update(10 bytes); update(54 bytes); digest() differs from md4(the 64 bytes).digest() -- the stale 10 bytes are processed again")
     for attr, val in (("digest_size", 16), ("block_size", 64)):
         rep.check(model.class_const(c, attr) == val, R, site(MD4, "md4." + attr), str(val), f"{attr} == {val}")
 
